@@ -171,11 +171,17 @@ def gen_history(rng, tier):
 
 
 def run(R, tier, rng):
-    n_hist = 2500 if tier == "thorough" else 500
+    n_hist = 2500 if tier == "thorough" else 700
     pairs = []          # (H ops, H' ops, insertion position, description)
     # the refuting witness of C10_refuted_witness first (corpus)
     W = [("build", BASES[0]), ("select", 0, slice(1, 3), None), ("assign", 0, [1], None, 99)]
     hist = [(W, [("read", 1, "tolist")], 2)]
+    # deterministic corpus: a selection of a selection (column steps composed on a lazy view), with and without a read of the first one
+    for b in BASES[:3]:
+        for cs1 in (slice(None, None, 2), slice(None, None, -1), slice(1, None, 3), slice(None, None, -2), slice(1, None)):
+            for rs2, cs2 in ((slice(None), slice(1, None)), (slice(None), slice(None, 2)), (slice(None), slice(None, None, -1)), (slice(1, None), None), (slice(None, None, -1), slice(-2, None)), ([0, -1], None)):
+                ops_ = [("build", b), ("select", 0, slice(None), cs1), ("select", 1, rs2, cs2)]
+                hist.append((ops_, [("read", 2, "tolist"), ("read", 1, "tolist"), ("read", 0, "tolist")], 3))
     for _ in range(n_hist): hist.append(gen_history(rng, tier))
     lines = []; meta = []
     for ops, final, nvars in hist:
